@@ -48,5 +48,11 @@ import SwcVerif.Refine.PopFromSwc
 #print axioms RefineFromSwc.pop_init_fresh
 #print axioms RefineFromSwc.pops_init_eq
 #print axioms RefineFromSwc.fs_for5_loop
-#print axioms RefineFromSwc.body_split_partial
-#print axioms RefineFromSwc.pops_from_swc_tail_partial
+#print axioms RefineFromSwc.body_split
+#print axioms RefineFromSwc.pops_from_swc_tail
+#print axioms RefineFromSwc.pops_from_swc_plain
+#print axioms RefineFromSwc.pops_from_swc_check
+#print axioms RefineFromSwc.pops_from_swc_intersect
+#print axioms RefineFromSwc.pops_from_swc_refines
+#print axioms RefineFromSwc.mem_interAll
+#print axioms RefineFromSwc.from_swc_rows
